@@ -195,8 +195,9 @@ def runRace (b : Block) : Res :=
   let c12 := c12.or (c11.map (fun m => s!"outcome_of_no_sequential_execution:{m}"))
   -- C04: when every sequential execution reports a function's own error (a memoised failure of a run-once
   -- converter the target depends on), no concurrent call may succeed
+  let seqCalls := seq.filter (fun o => o.startsWith "ok:" || o.startsWith "err:" || o.startsWith "panic:")
   let c04 : Option String :=
-    if !seq.isEmpty ∧ seq.all (fun o => o == "err:e0") ∧ got.any (fun o => o.startsWith "ok:") then
+    if !seqCalls.isEmpty ∧ seqCalls.all (fun o => o == "err:e0") ∧ got.any (fun o => o.startsWith "ok:") then
       some "call_succeeded_although_a_converter_it_needs_failed"
     else none
   -- C01: an execution that received values supplied by two different concurrent calls
